@@ -125,6 +125,11 @@ def _lib_decompile(doc: dict) -> dict:
     return sut.decompile_exps(doc)
 
 
+def _decompile_fast_enough(doc: dict) -> bool:
+    sut.quiet_logging()
+    return sut.decompiles_in_time(doc)
+
+
 # ---- schema of the documented JSON (transcribed from docs/cli_api_usage.rst) ------------------------------
 
 
@@ -438,6 +443,10 @@ def run_world(item: dict) -> dict:
         if node is None or node.get("f") != lib["sm"]:
             viol("exit-0-exactly-on-success", "compile-exit-0-without-complete-source-map", base)
     # hand-off: the compile command's stdout is the decompile command's input
+    if not forkrun(_decompile_fast_enough, {"routines": lib["ok"]["routines"]}, timeout=60):
+        res["slow_decompile_skipped"] = 1  # structuring pathology (DESIGN.md 2.2): would only time out
+        return res
+    res["processes"] += 1
     v2 = Vfs.load(w["vfs"])
     v2.write("/proj/out.json", r["stdout"])
     r2 = run_cli("explorerscript.cli.decompile", ["out.json"] + (["--source-map", "dec.sm"] if frng.random() < 0.5 else []), v2.dump())
@@ -738,6 +747,7 @@ def check(rep, tier: str, master: int, only_idx=None) -> None:
         agg["pipelines"] += r["pipelines"]
         agg["processes"] += r["processes"]
         kinds[r["kind"].split(":")[0]] = kinds.get(r["kind"].split(":")[0], 0) + 1
+        agg["slow_decompile_skipped"] = agg.get("slow_decompile_skipped", 0) + r.get("slow_decompile_skipped", 0)
         for k, v in r["exits"].items():
             exits[k] = exits.get(k, 0) + v
         for k, v in r["faults"].items():
